@@ -73,6 +73,7 @@ class Env:
         return None
 
     def resolve_hint(s, callee): return None
+    def home_crate(s): return getattr(s, 'home', None)
     def disambiguate(s, callee, cands): return cands
     def pick_drop_impl(s, M, v, impls): return impls
 
@@ -295,11 +296,19 @@ class Env:
             c = s.tgt(M, st, v)
             if isinstance(c, Agg) and c.ty in ('Vec', 'VecDeque', 'array'): return s.ret(st, Agg('SliceIter', [v, I(0)]))
         if isinstance(v, Agg) and v.ty in ('Vec', 'VecDeque', 'array'): return s.ret(st, Agg('IntoIter', [Agg('Vec', v.items())]))
-        if isinstance(v, Agg) and v.ty in ('Drain', 'IntoIter', 'SliceIter'): return s.ret(st, v)
+        if isinstance(v, Agg) and v.ty in ('Drain', 'IntoIter', 'SliceIter', 'Range'): return s.ret(st, v)
         return None
 
     def t_Iterator__next(s, M, st, th, ci, a):
         it = s.tgt(M, st, a[0])
+        if isinstance(it, Agg) and it.ty == 'Range':
+            outs = []
+            for st2, more in M.fork_on(st, binop('Lt', it.f[0], it.f[1])):
+                if more:
+                    cur = M.deref(st2, a[0]); M.write(st2, a[0], cur.with_field(0, binop('Add', cur.f[0], I(1, width(cur.f[0])))))
+                    outs.append(('ret', st2, some(cur.f[0])))
+                else: outs.append(('ret', st2, NONE))
+            return outs
         if it.ty == 'SliceIter':
             c = s.tgt(M, st, it.f[0]); i = it.f[1].v
             if i >= len(c.f): return s.ret(st, NONE)
@@ -318,6 +327,7 @@ class Env:
         return None
 
     def d_SliceIter(s, M, st, th, v): return True
+    def d_Range(s, M, st, th, v): return True
     def d_Drain(s, M, st, th, v): return None      # remaining items are dropped field-wise
     def d_IntoIter(s, M, st, th, v): return None
 
@@ -458,6 +468,15 @@ class Env:
 
     def p_Box__new(s, M, st, th, ci, a):
         r = st.alloc(a[0]); return s.ret(st, Agg('Box', [Ref(r)]))
+
+    def p_Box__new_uninit(s, M, st, th, ci, a):
+        # vec![..] expands to Box::new_uninit + a write through the raw pointer + box_assume_init_into_vec_unsafe
+        r = st.alloc(UNINIT); return s.ret(st, Agg('Box', [Agg('Unique', [Ref(r)])]))
+
+    def p_boxed__box_assume_init_into_vec_unsafe(s, M, st, th, ci, a):
+        r = a[0].f[0].f[0]; v = st.heap.pop(r.root)
+        arr = v.f[1].f[0].f[0]
+        return s.ret(st, Agg('Vec', arr.items()))
 
     def p_Box__pin(s, M, st, th, ci, a):
         r = st.alloc(a[0]); return s.ret(st, Agg('Pin', [Agg('Box', [Ref(r)])]))
@@ -686,7 +705,9 @@ class Env:
         return [('yield', st, name.replace('str:', '').strip('"'))]
 
     # ======================================================= num_cpus / logging
-    def p___get_physical(s, M, st, th, ci, a): return None
+    def p___get_physical(s, M, st, th, ci, a):
+        v = st.fresh('cpus'); st.assume(z3.And(z3.UGE(v, 1), z3.ULE(v, 1 << 20)))
+        return s.ret(st, v)
 
     # ======================================================= tokio Semaphore
     # Agg('Semaphore', [permits, closed, queue (tuple of ticket Opaques, oldest first), assigned (tuple of tickets)])
